@@ -103,9 +103,12 @@ package dagprocessor
 //@   at call dagprocessor.Processor).process[2] requires [batchorder] orderedResults[i].pos == processed
 //@   loop 1 modifies nRel, gRelEv, gRelPeer, gRelErr, gHL, nPush, gPushEv, all(dagordering.event).released, all(dagordering.event).err, gConn[*], gProcessed[*], gRelCnt[*], f.buffer.incompletes.lru.items[*], f.buffer.incompletes.lru.weight, lel[f.buffer.incompletes.lru.evictList], llen[f.buffer.incompletes.lru.evictList], lidx[*], lown[*], nEvict, gEvictKey, gEvictVal, all(simplewlru.entry).value, all(simplewlru.entry).weight, orderedResults[*], toRequest[*]
 //@   loop 1 invariant arrof(toRequest) == arrof(atentry(toRequest)) || arrfresh(toRequest, _loopalloc)
-//@   loop 1 invariant bufinv(f.buffer) && 0 <= processed && processed <= eventsLen
+//@   loop 1 invariant bufinv(f.buffer)
+//@   loop 1 invariant [bounds] 0 <= processed && processed <= eventsLen
 //@   loop 1 invariant ordered ==> len(orderedResults) == eventsLen && forall(j, 0, len(orderedResults), orderedResults[j] != nil ==> orderedResults[j].pos == j && orderedResults[j].e != nil && orderedResults[j].e.Size() >= 0)
 //@   loop 2 modifies nRel, gRelEv, gRelPeer, gRelErr, gHL, nPush, gPushEv, all(dagordering.event).released, all(dagordering.event).err, gConn[*], gProcessed[*], gRelCnt[*], f.buffer.incompletes.lru.items[*], f.buffer.incompletes.lru.weight, lel[f.buffer.incompletes.lru.evictList], llen[f.buffer.incompletes.lru.evictList], lidx[*], lown[*], nEvict, gEvictKey, gEvictVal, all(simplewlru.entry).value, all(simplewlru.entry).weight, orderedResults[*], toRequest[*]
 //@   loop 2 invariant arrof(toRequest) == arrof(atentry(toRequest)) || arrfresh(toRequest, _loopalloc)
-//@   loop 2 invariant bufinv(f.buffer) && 0 <= processed && processed <= eventsLen && i == processed && ordered
+//@   loop 2 invariant bufinv(f.buffer)
+//@   loop 2 invariant [bounds] 0 <= processed && processed <= eventsLen && ordered
+//@   loop 2 invariant [next] i == processed
 //@   loop 2 invariant len(orderedResults) == eventsLen && forall(j, 0, len(orderedResults), orderedResults[j] != nil ==> orderedResults[j].pos == j && orderedResults[j].e != nil && orderedResults[j].e.Size() >= 0)
